@@ -70,6 +70,7 @@ type Case struct {
 	DResp     int       `json:"designated_resp_size"`
 	Seed      uint64    `json:"seed"` // expanded per client: sizes, upstream delays and think times of all other requests
 	Quiet     bool      `json:"quiet_after_signal"` // SIGTERM only: the clients start no further requests once the signal is sent
+	Pow2Cuts  bool      `json:"pow2_cuts"`          // SIGHUP only: every bolt frame sent in pieces is cut after 64/128/256 bytes (else every fourth)
 	Holder    string    `json:"holder_proto"`       // SIGTERM only: protocol of one more request that the upstream holds across the signal until every listener refuses connects
 }
 
@@ -112,6 +113,8 @@ func genCase(rt *rapid.T, signal string) Case {
 	if signal == "SIGTERM" {
 		c.Quiet = rnd.n(2) == 1
 		c.Holder = protos[rnd.n(3)]
+	} else {
+		c.Pow2Cuts = rnd.n(4) == 0
 	}
 	return c
 }
